@@ -14,9 +14,51 @@ type c35Case struct {
 	nontr bool
 }
 
-func c35Tags(p int) c35Case {
-	tags, err := FindTags(p)
-	found := err == nil
+// c35Held is what callers hold: tables returned by FindTags earlier in this process, examined only
+// after all later lookups (of other sizes, in both orders) have happened.
+type c35Held struct {
+	accepted []int            // every p in 0..c35ProbeHi for which FindTags(p) succeeded
+	asc      map[int][]string // obtained by calls in ascending order of p
+	desc     map[int][]string // obtained afterwards by calls in descending order of p
+}
+
+const c35ProbeHi = 16400
+
+func c35Acquire() *c35Held {
+	h := &c35Held{asc: map[int][]string{}, desc: map[int][]string{}}
+	for p := 0; p <= c35ProbeHi; p++ {
+		if _, err := FindTags(p); err == nil {
+			h.accepted = append(h.accepted, p)
+		}
+	}
+	for _, p := range h.accepted {
+		t, _ := FindTags(p)
+		h.asc[p] = t
+	}
+	for i := len(h.accepted) - 1; i >= 0; i-- {
+		t, _ := FindTags(h.accepted[i])
+		h.desc[h.accepted[i]] = t
+	}
+	return h
+}
+
+func (h *c35Held) table(p int, which int) ([]string, string) {
+	if which%2 == 0 {
+		return h.desc[p], "held-desc"
+	}
+	return h.asc[p], "held-asc"
+}
+
+// c35Tags reports a table as held by a caller (or the error of a fresh lookup for a rejected count).
+func c35Tags(h *c35Held, p int, which int) c35Case {
+	tags, how := h.table(p, which)
+	found := tags != nil
+	if !found {
+		_, err := FindTags(p)
+		if err == nil {
+			panic("FindTags accepts a count the probe saw rejected")
+		}
+	}
 	var ts, ss []string
 	slots := make([]int, 0, len(tags))
 	for _, t := range tags {
@@ -25,28 +67,24 @@ func c35Tags(p int) c35Case {
 		slots = append(slots, s)
 		ss = append(ss, vN(uint64(s)))
 	}
-	js := map[string]any{"kind": "tags", "p": p, "found": found, "ntags": len(tags)}
+	js := map[string]any{"kind": "tags", "p": p, "found": found, "ntags": len(tags), "held": how}
 	if len(tags) <= 32 {
 		js["tags"] = tags
 		js["slots"] = slots
 	}
 	cl := "tags/unsupported"
 	if found {
-		cl = "tags/supported"
+		cl = "tags/" + how
 	}
 	return c35Case{vApp("CTags", vN(uint64(p)), vBool(found), vList(ts), vList(ss)), js, cl, found}
 }
 
-func c35Bal(p, n int) c35Case {
-	tags, err := FindTags(p)
-	if err != nil {
-		return c35Tags(p)
-	}
+func c35Counts(tags []string, n int) (mn, mx, sum int) {
 	counts := make([]int, n)
 	for _, t := range tags {
 		counts[SlotToNode(TagSlot(t), n)]++
 	}
-	mn, mx, sum := counts[0], counts[0], 0
+	mn, mx = counts[0], counts[0]
 	for _, c := range counts {
 		if c < mn {
 			mn = c
@@ -56,8 +94,37 @@ func c35Bal(p, n int) c35Case {
 		}
 		sum += c
 	}
-	js := map[string]any{"kind": "balance", "p": p, "n": n, "min": mn, "max": mx, "sum": sum}
-	return c35Case{vApp("CBal", vN(uint64(p)), vN(uint64(n)), vN(uint64(mn)), vN(uint64(mx)), vN(uint64(sum))), js, "balance", n > 1}
+	return
+}
+
+// c35Bal: per-node counters over a table held since the acquisition phase.
+func c35Bal(h *c35Held, p, n int, which int) c35Case {
+	tags, how := h.table(p, which)
+	mn, mx, sum := c35Counts(tags, n)
+	js := map[string]any{"kind": "balance", "p": p, "n": n, "min": mn, "max": mx, "sum": sum, "held": how}
+	return c35Case{vApp("CBal", vN(uint64(p)), vN(uint64(n)), vN(uint64(mn)), vN(uint64(mx)), vN(uint64(sum))), js, "balance/" + how, n > 1}
+}
+
+// c35BalInterleaved: obtain the p table, then look up another count q, then count over the table still held.
+func c35BalInterleaved(p, q, n int) c35Case {
+	tags, _ := FindTags(p)
+	_, _ = FindTags(q)
+	mn, mx, sum := c35Counts(tags, n)
+	js := map[string]any{"kind": "balance", "p": p, "n": n, "min": mn, "max": mx, "sum": sum, "held": "interleaved", "then_lookup": q}
+	return c35Case{vApp("CBal", vN(uint64(p)), vN(uint64(n)), vN(uint64(mn)), vN(uint64(mx)), vN(uint64(sum))), js, "balance/interleaved", n > 1}
+}
+
+func c35Probe(h *c35Held) c35Case {
+	var ls, as []string
+	listed := PrecomputedSizes()
+	for _, p := range listed {
+		ls = append(ls, vN(uint64(p)))
+	}
+	for _, p := range h.accepted {
+		as = append(as, vN(uint64(p)))
+	}
+	js := map[string]any{"kind": "probe", "hi": c35ProbeHi, "listed": listed, "accepted": h.accepted}
+	return c35Case{vApp("CProbe", vN(c35ProbeHi), vList(ls), vList(as)), js, "probe", true}
 }
 
 func c35Crc(data []byte, class string) c35Case {
@@ -90,19 +157,30 @@ func c35Node(slot, n int) (c c35Case) {
 func TestVerifC35(t *testing.T) {
 	w := verifOpen(t, "C35")
 	defer w.Close()
-	sizes := PrecomputedSizes()
-	w.Extra["precomputed_sizes"] = sizes
+	held := c35Acquire()
+	sizes := held.accepted // every count FindTags accepts, found by probing (not PrecomputedSizes())
+	if len(sizes) == 0 {
+		t.Fatal("FindTags accepts no partition count in 0..16400")
+	}
+	w.Extra["precomputed_sizes"] = PrecomputedSizes()
+	w.Extra["accepted_by_probe"] = sizes
 
-	// fixed part: every supported size, some unsupported ones, balance pairs, boundary slots
+	// fixed part: the probe, every accepted size as held by a caller, some rejected ones, balance pairs, boundary slots
 	type thunk func() c35Case
 	var fixed []thunk
+	fixed = append(fixed, func() c35Case { return c35Probe(held) })
 	for _, p := range sizes {
 		p := p
-		fixed = append(fixed, func() c35Case { return c35Tags(p) })
+		fixed = append(fixed, func() c35Case { return c35Tags(held, p, 0) })
+		if p <= 512 {
+			fixed = append(fixed, func() c35Case { return c35Tags(held, p, 1) })
+		}
 	}
-	for _, p := range []int{0, 1, 15, 17, 100, 8192} {
+	for _, p := range []int{0, 1, 2, 3, 4, 8, 15, 17, 100, 8192} {
 		p := p
-		fixed = append(fixed, func() c35Case { return c35Tags(p) })
+		if held.desc[p] == nil {
+			fixed = append(fixed, func() c35Case { return c35Tags(held, p, 0) })
+		}
 	}
 	for _, p := range sizes {
 		for n := 1; n <= p; n++ {
@@ -110,7 +188,7 @@ func TestVerifC35(t *testing.T) {
 			edge := n <= 3 || n >= p-2 || n == p/2 || n == p/2+1 || n == p/3
 			if all || edge {
 				p, n := p, n
-				fixed = append(fixed, func() c35Case { return c35Bal(p, n) })
+				fixed = append(fixed, func() c35Case { return c35Bal(held, p, n, n) })
 			}
 		}
 	}
@@ -146,9 +224,13 @@ func TestVerifC35(t *testing.T) {
 			c = fixed[i]()
 		} else {
 			switch r.Intn(4) {
-			case 0: // balance of a random (p, n)
+			case 0: // balance of a random (p, n): held table, or a table obtained just before another lookup
 				p := sizes[r.Intn(len(sizes))]
-				c = c35Bal(p, 1+r.Intn(p))
+				if r.Intn(2) == 0 {
+					c = c35Bal(held, p, 1+r.Intn(p), r.Intn(2))
+				} else {
+					c = c35BalInterleaved(p, sizes[r.Intn(len(sizes))], 1+r.Intn(p))
+				}
 			case 1, 2: // crc of random bytes; short strings, tag-like strings, long strings
 				var data []byte
 				class := "random"
